@@ -109,18 +109,20 @@ func (h *messageHandler) storeCapabilityMessage(msg CustomMessage) (PeerID, erro
 		return peerID, nil
 	}
 
-	peer, err := h.findPeer(peerID)
+	if h.store == nil {
+		return peerID, fmt.Errorf("unknown peer %s: %w", peerID.String(), errors.New("store not configured"))
+	}
+
+	// Merge into the stored state in one transaction: the poll loop writes
+	// the same record.
+	err = h.store.UpdatePeerState(peerID, true, func(peer *Peer) error {
+		if existing := peer.Capability(); existing != nil {
+			capability = h.logic.MergeCapabilities(existing, capability)
+		}
+		peer.UpdateCapability(capability)
+		return nil
+	})
 	if err != nil {
-		return peerID, fmt.Errorf("unknown peer %s: %w", peerID.String(), err)
-	}
-
-	if existing := peer.Capability(); existing != nil {
-		capability = h.logic.MergeCapabilities(existing, capability)
-	}
-
-	peer.UpdateCapability(capability)
-
-	if err := h.store.SavePeerState(peer); err != nil {
 		return peerID, fmt.Errorf("failed to store peer state: %w", err)
 	}
 
@@ -139,19 +141,4 @@ func (h *messageHandler) parseCapabilityMessage(msg CustomMessage) (*PeerCapabil
 	}
 
 	return capability, nil
-}
-
-func (h *messageHandler) findPeer(peerID PeerID) (*Peer, error) {
-	if h.store == nil {
-		return nil, errors.New("store not configured")
-	}
-
-	peer, err := h.store.GetPeerState(peerID)
-	if err == nil {
-		return peer, nil
-	}
-	if errors.Is(err, ErrPeerNotFound) {
-		return NewPeer(peerID, ""), nil
-	}
-	return nil, err
 }
